@@ -1,6 +1,6 @@
 """Checked contracts for ECAgent/Core.py.  Predicates are executable Python (symbolic + concrete reading)."""
 from pyvc.specs import contract, fields_of, lemma, implies, iff, index_of, order_of, key_at, is_fresh, \
-    same_elems, same_dict, typeof, is_none, same, same_obj
+    same_elems, same_dict, typeof, is_none, same, same_obj, rng_seed
 
 # ------------------------------------------------------------------------------------------------ field types
 fields_of('Model', environment='ref:Environment', systems='ref:SystemManager', random='ref:Random',
@@ -248,9 +248,15 @@ def model_init_post(self, seed, logger):
             and len(self.environment.agents) == 0 and len(self.environment.components) == 0)
 
 
+def model_rng_post(self, seed, logger, old):
+    """C07: the model owns a fresh generator seeded with exactly the given seed (also 0)."""
+    return is_fresh(self.random, old) and same(rng_seed(self.random), seed)
+
+
 contract('Core.Model.__init__',
          params={'self': 'ref:Model', 'seed': 'any', 'logger': 'ref?:Logger'},
-         ensures={'C06': [model_init_post], 'C03': [model_init_post], 'C02': [model_init_post]},
+         ensures={'C06': [model_init_post], 'C03': [model_init_post], 'C02': [model_init_post],
+                  'C07': [model_rng_post]},
          modifies=['self.environment', 'self.systems', 'self.random', 'self.logger', 'self._status',
                    'new:obj:Environment', 'new:obj:SystemManager', 'new:obj:Random', 'new:obj:Logger',
                    'new:dict[str,ref:System]', 'new:list[ref:System]', 'new:dict[cls,list[ref:Component]]',
